@@ -488,6 +488,11 @@ func checkC05(c *Ctx, r *Report) {
 			okL = okL && held
 		}
 		r4.Check(okL, "(*"+dsT+").Dial: reference drop and teardown in one critical section", f.Pos(), len(ends)+1, "", "", "")
+		// the drop is by exactly one: a caller that took one reference gives back one (a drop by more, or by a variable
+		// amount, reaches zero while callers still wait, or steps over zero and the worker is never ended)
+		for _, d := range decs {
+			r4.Check(stepsFieldBy(d, adT+".refCnt", token.SUB, 1), "(*"+dsT+").Dial: the reference is dropped by exactly one", instrPos(d), 1, "", "", "refCnt is not written as refCnt - 1")
+		}
 	}
 	if f := r4.need("(*" + dsT + ").getActiveDial"); f != nil {
 		gos := findInstrs(f, func(in ssa.Instruction) bool {
@@ -521,6 +526,11 @@ func checkC05(c *Ctx, r *Report) {
 		incs := findInstrs(f, func(in ssa.Instruction) bool { return isFieldWrite(in, adT+".refCnt") })
 		q := &Cut{Fn: f, Target: func(in ssa.Instruction) bool { ret, ok := in.(*ssa.Return); return ok && isNilConst(retVal(ret, 1)) }, Sep: inSet(incs)}
 		r4.mustPass(f, "getActiveDial: every caller takes a reference", q, 1)
+		// ... and it is one reference, counted up: every write of refCnt here is refCnt + 1, or the 1 a dial created
+		// in this very call starts with (activeDial{refCnt: 1, ...})
+		for _, i := range incs {
+			r4.Check(stepsFieldBy(i, adT+".refCnt", token.ADD, 1) || initsFreshFieldTo(i, 1), "getActiveDial: the reference is taken by counting up by exactly one", instrPos(i), 1, "", "", "refCnt is not written as refCnt + 1 (or as 1 in a dial created here)")
+		}
 	}
 
 	// ---- R5 ---------------------------------------------------------------
@@ -770,4 +780,39 @@ func checkC05(c *Ctx, r *Report) {
 		w, n := (&Cut{Fn: f, Target: isRetInstr, Sep: inSet(clears)}).Run(c)
 		r8.Check(w == "" && len(clears) >= 1, "dialWorker.loop: the peer's waiting dials are cleared when the worker ends", f.Pos(), n+1, "", "jobs of a finished worker stay queued in the limiter and are started later for nobody", w)
 	}
+}
+
+// stepsFieldBy: the instruction stores <load of the same field> op n into the field (x.f++, x.f += n, x.f = x.f + n;
+// for ADD also n + x.f).
+func stepsFieldBy(in ssa.Instruction, fieldKey string, op token.Token, n int64) bool {
+	st, ok := in.(*ssa.Store)
+	if !ok || !isFieldWrite(in, fieldKey) {
+		return false
+	}
+	b, ok := st.Val.(*ssa.BinOp)
+	if !ok || b.Op != op {
+		return false
+	}
+	x, y := b.X, b.Y
+	if _, isC := constInt(x); isC && op == token.ADD {
+		x, y = y, x
+	}
+	k, isC := constInt(y)
+	return isC && k == n && isLoadOfField(fieldKey)(strip2(x))
+}
+
+// initsFreshFieldTo: the instruction stores the constant n into a field of an object allocated in the same function
+// (a composite literal's field initialiser).
+func initsFreshFieldTo(in ssa.Instruction, n int64) bool {
+	st, ok := in.(*ssa.Store)
+	if !ok {
+		return false
+	}
+	k, isC := constInt(st.Val)
+	fa, isF := st.Addr.(*ssa.FieldAddr)
+	if !isC || k != n || !isF {
+		return false
+	}
+	_, fresh := fa.X.(*ssa.Alloc)
+	return fresh
 }
